@@ -102,7 +102,6 @@ func declsWith(terms []*Term, render func(*Term) string, withQAxioms bool) strin
 	return sb.String()
 }
 
-
 func defNum(t *Term) int {
 	n := 0
 	fmt.Sscanf(t.Leaf, "d!%d", &n)
@@ -251,19 +250,23 @@ type Result struct {
 }
 
 type solverTask struct {
-	solver string
-	script string
-	tag    string // appended to the solver name in the result ("+uf-abstraction", ...)
-	onlyUnsat bool // an abstraction: only unsat is conclusive
+	solver    string
+	script    string
+	tag       string // appended to the solver name in the result ("+uf-abstraction", ...)
+	onlyUnsat bool   // an abstraction: only unsat is conclusive
 }
 
 // solverErrors collects parse / sort errors reported by a back end: those are engine bugs, never verdicts.
 var solverErrors sync.Map
 
 var solverArgv = map[string]func(time.Duration) []string{
-	"z3-new": func(t time.Duration) []string { return []string{"z3-new", "-in", fmt.Sprintf("-T:%d", int(t.Seconds())+1)} },
-	"cvc5":   func(t time.Duration) []string { return []string{"cvc5", "--lang=smt2", fmt.Sprintf("--tlimit=%d", t.Milliseconds())} },
-	"z3":     func(t time.Duration) []string { return []string{"z3", "-in", fmt.Sprintf("-T:%d", int(t.Seconds())+1)} },
+	"z3-new": func(t time.Duration) []string {
+		return []string{"z3-new", "-in", fmt.Sprintf("-T:%d", int(t.Seconds())+1)}
+	},
+	"cvc5": func(t time.Duration) []string {
+		return []string{"cvc5", "--lang=smt2", fmt.Sprintf("--tlimit=%d", t.Milliseconds())}
+	},
+	"z3": func(t time.Duration) []string { return []string{"z3", "-in", fmt.Sprintf("-T:%d", int(t.Seconds())+1)} },
 }
 
 func runSolverCtx(ctx context.Context, tk solverTask, timeout time.Duration) Result {
@@ -461,7 +464,6 @@ func (s *Inc) Sat(asserts []*Term) bool {
 }
 
 func (s *Inc) Close() { s.in.Close(); s.cmd.Wait() }
-
 
 type teeWC struct {
 	a io.WriteCloser
